@@ -1,15 +1,14 @@
 (** C11 — handler timeouts abandon exactly the invocations that exceed the limit.
     Statements only; proofs live in Inv/. *)
-From Hannibal Require Import Model.Sys Inv.C11 Chk.C11.
+From Hannibal Require Import Model.Sys Inv.C11 Inv.C11b Chk.C11.
 
 (** On every execution the model accepts, on the virtual clock: an invocation is abandoned only
     when a timeout t is configured for a plain (not stream-attached) actor and at least t has
     passed since it began (or the task is being cancelled); an invocation that completes under a
     configured timeout does so no later than t after it began; without a configured timeout no
     invocation is ever abandoned.
-    [partial] That the abandonment happens at exactly begin + t and not later is not part of this
-    theorem: it is enforced by the model's progress check at every clock event (the executor
-    advances time only when nothing is runnable) and validated by correspondence. *)
+    That the abandonment happens at exactly begin + t and not later is
+    [C11_abandoned_exactly_at_the_limit] below. *)
 Theorem C11_abandon_only_past_limit : forall tr, accepts tr = true -> chk_C11 tr = true.
 Proof. exact accepts_chk_C11. Qed.
 Print Assumptions C11_abandon_only_past_limit.
@@ -24,3 +23,14 @@ Example C11_acceptor_rejects :
   (* abandoned without any timeout *)
   /\ chk_C11 [EvSpawn 0 (c None); EvHBegin 0 1; EvClock 500; EvHEnd 0 1 HAbandoned] = false.
 Proof. vm_compute. auto. Qed.
+
+(** In every reachable state the deadline of a running handler has not passed (the clock moves
+    only when nothing is due), so - on every execution the model accepts - a handler that is
+    abandoned by its timeout (not by a cancellation of the whole task) is abandoned at the very
+    instant of its deadline, begin + t on the virtual clock. *)
+Theorem C11_abandoned_exactly_at_the_limit :
+  forall tr s a o s' x, run init tr = Acc s -> step s (EvHEnd a o HAbandoned) = Acc s' ->
+  actors s a = Some x -> a_crashing x = false ->
+  exists d, a_phase x = PhHandle o (Some d) /\ now s = d.
+Proof. exact abandoned_at_the_limit. Qed.
+Print Assumptions C11_abandoned_exactly_at_the_limit.
